@@ -5,7 +5,7 @@ import formats
 from wire import to_wire, from_wire
 
 KEYS = ["a", "b", "c", "d", "e"]
-SCAL = [0, 1, 2, 7, -3, True, False, "x", "y", "z", "", "1", "true", 0.5, 1.5, 2.25, "a b"]
+SCAL = [0, 1, 2, 7, -3, True, False, "x", "y", "z", "", "1", "true", 0.5, 1.5, 2.25, "a b", 1.0, 2.0, -3.0]
 FMTS = ["yaml", "json", "toml"]
 
 
